@@ -136,8 +136,10 @@ package keeper
 // ---- voter rewards are claimed once (C13) ----
 
 //@ func (k Keeper).CalculateReward(ctx, addr, id) (reward, err)
-//@ trusted
 //@ ensures [reads_only] nothing_written()
+//@ ensures [tips_are_read_as_of_the_block_of_a_round_of_this_dispute] called(GetUserTotalTips) ==> exists j in [0, len(dispute.Disputes[id].PrevDisputeIds)) :: has(dispute.Disputes, dispute.Disputes[id].PrevDisputeIds[j]) && arg(GetUserTotalTips, blockNumber) == dispute.Disputes[dispute.Disputes[id].PrevDisputeIds[j]].BlockNumber
+//@ loop 0 "for _, pastId := range dispute.PrevDisputeIds"
+//@ loop 0 invariant [tips_are_read_as_of_the_block_of_a_round_of_this_dispute] called(GetUserTotalTips) ==> exists j in [0, len(dispute.PrevDisputeIds)) :: has(dispute.Disputes, dispute.PrevDisputeIds[j]) && arg(GetUserTotalTips, blockNumber) == dispute.Disputes[dispute.PrevDisputeIds[j]].BlockNumber
 
 //@ func (k Keeper).ClaimReward(ctx, addr, id) (err)
 //@ requires [claimer_is_not_the_dispute_account] acc(addr) != module("dispute")
@@ -167,7 +169,7 @@ package keeper
 
 //@ func (k Keeper).PayDisputeFee(ctx, proposer, fee, fromBond, hashId) (err)
 //@ trusted
-//@ modifies reporter.*, staking.*, bank.bal, dispute.DisputeFeePayer
+//@ modifies reporter.*, staking.*, bank.bal
 
 //@ func (k Keeper).AddDisputeRound(ctx, sender, dispute, msg) (err)
 //@ requires [round_counter_fits_int64] dispute.DisputeRound < 9223372036854775808
@@ -180,3 +182,32 @@ package keeper
 //@ ensures [round_fee_is_five_percent_doubled_per_round_capped_by_the_slash_amount] err == nil ==> arg(PayDisputeFee, fee).Amount == (five_percent(dispute.SlashAmount) * pow2(dispute.DisputeRound) > dispute.SlashAmount ? dispute.SlashAmount : five_percent(dispute.SlashAmount) * pow2(dispute.DisputeRound))
 //@ ensures [round_fee_doubles_and_is_capped_by_the_slash_amount] err == nil ==> arg(PayDisputeFee, fee).Amount <= dispute.SlashAmount && dispute.Disputes[ret(NextDisputeId, 0)].FeeTotal == dispute.FeeTotal + arg(PayDisputeFee, fee).Amount
 //@ ensures [other_disputes_untouched] forall d int :: d != dispute.DisputeId && d != ret(NextDisputeId, 0) ==> (has(dispute.Disputes, d) <==> old(has(dispute.Disputes, d))) && dispute.Disputes[d] == old(dispute.Disputes[d])
+
+// ---- slashing only for a report that was really submitted as stated (C11) ----
+// submitted(rep): the oracle module stores a micro-report of this reporter for this query with the stated value,
+// power and block number (r is the reporter's account address, id the round the report went into).
+
+//@ define submitted(rep) = exists r bytes :: exists id int :: accstr(r) == rep.Reporter && has(oracle.Reports, triple(bytes(rep.QueryId), r, id)) && oracle.Reports[triple(bytes(rep.QueryId), r, id)].Value == rep.Value && oracle.Reports[triple(bytes(rep.QueryId), r, id)].Power == rep.Power && oracle.Reports[triple(bytes(rep.QueryId), r, id)].BlockNumber == rep.BlockNumber
+
+//@ func (k Keeper).SlashAndJailReporter(ctx, report, category, hashId) (err)
+//@ requires [the_disputed_report_was_submitted_with_the_stated_value_and_power] submitted(report)
+//@ requires [reporter_is_an_address] bech32ok(report.Reporter)
+//@ modifies oracle.Aggregates, reporter.*, staking.*, bank.bal, H_*, A_*
+
+//@ func (k msgServer).ProposeDispute(goCtx, msg) (resp, err)
+//@ requires [msg_present] msg != nil && msg.Report != nil
+//@ requires [stated_power_fits_int64] msg.Report.Power < 9223372036854775808
+//@ modifies dispute.*, oracle.Aggregates, reporter.*, staking.*, bank.bal, bank.supply, H_*, A_*
+
+// ---- every payment of a fee payer is recorded (C13) ----
+// paid(i, a): the amount recorded for payer a of dispute i (0 without a record).
+//@ define paid(i, a) = has(dispute.DisputeFeePayer, pair(i, a)) ? dispute.DisputeFeePayer[pair(i, a)].Amount : 0
+
+//@ func (k msgServer).AddFeeToDispute(goCtx, msg) (resp, err)
+//@ requires [msg_present] msg != nil
+//@ requires [stored_evidence_is_a_submitted_report] forall i int :: has(dispute.Disputes, i) ==> submitted(dispute.Disputes[i].InitialEvidence) && bech32ok(dispute.Disputes[i].InitialEvidence.Reporter)
+//@ requires [disputes_are_stored_under_their_id] forall i int :: has(dispute.Disputes, i) ==> dispute.Disputes[i].DisputeId == i
+//@ modifies dispute.*, oracle.Aggregates, reporter.*, staking.*, bank.bal, bank.supply, H_*, A_*
+//@ ensures [payer_record_and_fee_total_grow_by_the_same_amount] err == nil ==> paid(msg.DisputeId, accbytes(msg.Creator)) - old(paid(msg.DisputeId, accbytes(msg.Creator))) == dispute.Disputes[msg.DisputeId].FeeTotal - old(dispute.Disputes[msg.DisputeId].FeeTotal)
+//@ ensures [other_payers_records_untouched] forall i int :: forall a bytes :: !(i == msg.DisputeId && a == accbytes(msg.Creator)) ==> (has(dispute.DisputeFeePayer, pair(i, a)) <==> old(has(dispute.DisputeFeePayer, pair(i, a)))) && dispute.DisputeFeePayer[pair(i, a)] == old(dispute.DisputeFeePayer[pair(i, a)])
+//@ ensures [fee_total_never_exceeds_the_slash_amount] err == nil && old(dispute.Disputes[msg.DisputeId].FeeTotal) <= old(dispute.Disputes[msg.DisputeId].SlashAmount) ==> dispute.Disputes[msg.DisputeId].FeeTotal <= dispute.Disputes[msg.DisputeId].SlashAmount
